@@ -89,7 +89,7 @@ INFO = {
 
 # round 2 (s3..s5): descriptions derived from each patch and its demo
 NOT_CAUGHT = {}
-for _f in ("seedinfo_round2.json", "seedinfo_round3.json"):
+for _f in ("seedinfo_round2.json", "seedinfo_round3.json", "seedinfo_round4.json"):
     if (ROOT / "tools" / _f).exists():
         for _k, _v in json.loads((ROOT / "tools" / _f).read_text()).items():
             INFO[_k] = (_v["what"], _v["needs"])
@@ -117,6 +117,12 @@ def main():
             mp.write_text(json.dumps(m, indent=1) + "\n")
         if m["detected"] and m.get("first_run_missed"):
             caught = "caught after strengthening"
+        others = sorted(p for p, c in m["checks"].items()
+                        if p != m["property"] and c["exit"] == 1 and c["violations"])
+        if not m["detected"] and others:
+            caught = "caught by " + ", ".join(others) + " (not by " + m["property"] + ")"
+            facets = sorted({v.split("violation in ")[1].split(":")[0] for p in others
+                             for v in m["checks"][p]["violations"] if "violation in " in v})
         rows.append((d.name, m["property"], "yes" if valid else "NO", caught,
                      ", ".join(facets), m.get("needs_to_manifest", "")))
     print("| seed | property | valid seed | quick check | facets that fired | needs to manifest |")
